@@ -13,9 +13,10 @@ EXTRA_FILES = {
     'C06': ['bus/config-parser-common.c', 'dbus/dbus-sysdeps-unix.c', 'dbus/dbus-credentials.c'],
     'C11': ['dbus/dbus-connection.c'],
     'C05': ['dbus/dbus-message.c'],
-    'C19': ['bus/activation-helper-bin.c', 'bus/config-parser-trivial.c',
+    'C19': ['bus/activation-helper-bin.c', 'bus/config-parser-trivial.c', 'dbus/dbus-mainloop.c', 'dbus/dbus-timeout.c',
             'bus/bus.c'],                                                  # the activation timeout comes from the context
     'C15': ['dbus/dbus-auth.c', 'dbus/dbus-transport.c'],                  # where descriptor passing is negotiated and asked about
+    'C09': ['dbus/dbus-mainloop.c', 'dbus/dbus-timeout.c'],                # reply timeouts are main-loop timeouts
     'C13': ['dbus/dbus-connection.c', 'dbus/dbus-transport.c'],   # the size limit travels connection -> transport -> loader
     'C14': ['bus/config-parser.c', 'bus/config-parser-common.c', 'bus/policy.c', 'bus/config-loader-expat.c'],
 }
@@ -1780,6 +1781,59 @@ def stale_links(ck, prog):
 
 
 # ---------------------------------------------------------------------------
+# carries and borrows between the parts of a split number come in pairs
+
+RADIXES = {1000, 1000000, 1000000000}
+
+
+def carry_sites(f):
+    """[(line, low part, op, radix, paired?)] for `low += R` / `low -= R` with R a radix constant in a block"""
+    from .cfg import written_lvalues, estr
+    out = []
+    for bid, blk in f.blocks.items():
+        adj = []
+        unit = []
+        for ev in blk['events']:
+            for lhs, how, rhs in written_lvalues(ev):
+                if how in ('+=', '-=') and isinstance(rhs, dict) and is_int(rhs):
+                    if abs(rhs['v']) in RADIXES:
+                        adj.append((ev['line'], estr(lhs), how, abs(rhs['v'])))
+                    elif rhs['v'] == 1:
+                        unit.append((estr(lhs), how))
+                elif how in ('++', '--'):
+                    unit.append((estr(lhs), '+=' if how == '++' else '-='))
+        for line, low, how, radix in adj:
+            opposite = '-=' if how == '+=' else '+='
+            paired = any(h == opposite and name != low for name, h in unit)
+            out.append((line, low, how, radix, paired))
+    return out
+
+
+def carries(ck, prog):
+    pid = ck.pid
+    r = ck.rule(pid + '.M', 'a number kept in two parts (seconds and milliseconds / microseconds / nanoseconds) is '
+                'normalised in pairs: a block that adds the radix (1000, 10^6, 10^9) to the low part takes 1 from another '
+                'variable, one that subtracts the radix adds 1, in this property\'s scope', 'PAIR',
+                breaks='the remaining time of a timeout comes out a whole second too large: it looks as if the clock had '
+                'gone backwards, the timer is restarted again and again, and the start timeout of an activation never '
+                'fires', floor=0)
+    n = 0
+    for f in prog.funcs.values():
+        if not in_scope(prog, ck.pid, f):
+            continue
+        for line, low, how, radix, paired in carry_sites(f):
+            n += 1
+            key = '%s:%s%s%d' % (f.name, low, how, radix)
+            if paired:
+                r.ok(key)
+            else:
+                r.violation(key, f.name, f.file, line, '%s %s %d without the matching %s 1 on the high part' % (
+                    low, how, radix, '-=' if how == '+=' else '+='))
+    if n == 0:
+        r.ok('no-split-number-normalised-in-scope')
+
+
+# ---------------------------------------------------------------------------
 # which function a function calls
 
 def callee_profile(f):
@@ -1886,6 +1940,7 @@ def run(ck, prog):
     condition_functions(ck, prog)
     never_set_values(ck, prog)
     callee_identity(ck, prog)
+    carries(ck, prog)
     stale_links(ck, prog)
     accessors(ck, prog)
     fresh_reads(ck, prog)
